@@ -4,6 +4,7 @@ use regex::Regex;
 use std::sync::OnceLock;
 
 use crate::exec::*;
+use crate::props::common::gen_expr;
 use crate::pools;
 use crate::rng::Rng;
 use crate::simfs::*;
@@ -353,7 +354,13 @@ pub fn random_trace(seed: u64) -> Trace {
     }
     s.extend(nav_pref_steps(&mut rng));
     let n_valid = pools::VALID_EXPRS.len();
-    let first = if rng.chance(0.3) { ExprRef::Corpus(rng.below(pools::corpus().len())) } else { ExprRef::Pool(rng.below(n_valid)) };
+    let first = if rng.chance(0.15) {
+        gen_expr(&mut rng)
+    } else if rng.chance(0.2) {
+        ExprRef::Corpus(rng.below(pools::corpus().len()))
+    } else {
+        ExprRef::Pool(rng.below(n_valid))
+    };
     s.push(Step::Call(Op::SetMathml(first)));
     let n = rng.range(5, 150);
     // swarm: per run probabilities
@@ -385,7 +392,8 @@ pub fn random_trace(seed: u64) -> Trace {
         if r < p_newexpr {
             let e = match rng.below(10) {
                 0..=4 => ExprRef::Pool(rng.below(n_valid)),
-                5 | 6 => ExprRef::Corpus(rng.below(pools::corpus().len())),
+                5 => ExprRef::Corpus(rng.below(pools::corpus().len())),
+                6 => gen_expr(&mut rng),
                 7 => ExprRef::Feedback,
                 _ => ExprRef::Bad(rng.below(pools::INVALID_EXPRS.len())),
             };
